@@ -8,8 +8,8 @@ def run(ctx):
     cfg = dict(nt=1, nx=2, sync=False, rollback=True, faults=False, crash=False)
     bad = ['bad:c06-rolled-back-leaf-still-readable', 'bad:c06-inadmissible-rollback-accepted', 'bad:c06-rolled-back-leaf-still-on-device']
     d = 26 if quick else 36
-    seed = {'pred': 'reach:tx1-applied', 'depth': 28}
-    ds = 18 if quick else 26
+    seed = {'pred': 'reach:tx1-applied-alone', 'depth': 28}
+    ds = 22 if quick else 30
     queries = [('reach', 36, ['reach:rollback-committed']), ('reach', 24, ['reach:rollback-refused'])] + [('bad', d, [b]) for b in bad]
     # waypoint: from a reachable state in which the first change has been applied, all continuations of ds steps
     queries += [('bad', ds, [b], seed) for b in bad] + [('reach', ds, ['reach:rollback-committed'], seed)]
